@@ -104,6 +104,27 @@ def r6_2(ctx):
     ctx.end()
 
 
+def r6_7(ctx):
+    """'no worker stays FREE while ... a task exists that this worker is eligible for': the workers the allocator hands out are drawn
+    from *all* workers of *all* teams of the organization (narrowed afterwards only by conditions on the worker itself and on the
+    task at hand).  A pre-selection of teams -- by some other notion of 'in charge' than the eligibility test -- leaves a free,
+    eligible worker out of every candidate list."""
+    ctx.begin("R6.7", "worker candidates at every allocation site are drawn from every team's worker_list", floor=2)
+    f, sites = allocation_sites(ctx)
+    want = "self.organization.team_list / *.worker_list"
+    for i, s in enumerate(sites):
+        c = s.cand_coll
+        base = c.base if isinstance(c, CollV) else None
+        ev = s.ev.get("task<-worker") or next(iter(s.ev.values()))
+        ctx.instance(construct(f, f"site-{i}"), sample={"candidates_from": base})
+        if base is None:
+            raise AnalysisError(f"R6.7: the worker candidates of the allocation site at {ev.loc} are not a collection with known provenance ({c!r})")
+        if base != want:
+            ctx.violation(construct(f, "worker-pool"), ev.loc, f"the workers offered at this allocation site come from `{base}`, not from every team's worker_list (`{want}`): "
+                          f"a FREE worker of a team that is left out is never offered to the tasks his team targets")
+    ctx.end()
+
+
 def r6_3(ctx):
     ctx.begin("R6.3", "greedy shape of the allocation loops", floor=3)
     f, sites = allocation_sites(ctx)
@@ -184,6 +205,7 @@ def r6_5(ctx):
 def run(ctx):
     r6_1(ctx)
     r6_2(ctx)
+    r6_7(ctx)
     r6_3(ctx)
     r6_4(ctx)
     r6_5(ctx)
